@@ -164,7 +164,7 @@ main (int argc, char **argv)
     {
 	long long f[40];
 	int n = 28, i, k = 0;
-	int pair, variant, cmp, op, skind, sw, sh, srep, sfilt, mkind, dw, dh, sx, sy, dx, dy, w, h, quant, drep;
+	int pair, variant, cmp, op, skind, sw, sh, srep, sfilt, mkind, dw, dh, sx, sy, dx, dy, w, h, quant, drep, persp;
 	pixman_format_code_t sfmt, dfmt;
 	pixman_fixed_t t[6];
 	uint64_t seed;
@@ -184,6 +184,7 @@ main (int argc, char **argv)
 	seed = (uint64_t)f[k++]; quant = (int)f[k++];
 	drep = (quant >> 1) & 1;       /* bit 1: the destination is given REPEAT_NORMAL (pixman then knows an
 				    * alpha-less destination to be opaque) */
+	persp = (quant >> 4) & 15;     /* bits 4-7: projective row of the source transform (table below) */
 	quant &= 1;
 	memset (&s, 0, sizeof s); memset (&m, 0, sizeof m);
 	nk = 0;
@@ -209,7 +210,7 @@ main (int argc, char **argv)
 	}
 
 	/* the scripted request, echoed for the specification */
-	simple = (t[1] == 0 && t[2] == 0 && t[0] == 65536 && t[3] == 65536 && (t[4] & 0xffff) == 0 && (t[5] & 0xffff) == 0 &&
+	simple = (persp == 0 && t[1] == 0 && t[2] == 0 && t[0] == 65536 && t[3] == 65536 && (t[4] & 0xffff) == 0 && (t[5] & 0xffff) == 0 &&
 		  (sfilt == PIXMAN_FILTER_NEAREST || sfilt == PIXMAN_FILTER_FAST));
 	vt_begin ("Req");
 	vt_int ("pair", pair); vt_int ("variant", variant); vt_int ("cmp", cmp); vt_int ("op", op);
@@ -251,12 +252,20 @@ main (int argc, char **argv)
 					 kparams, nk);
 	    else
 		pixman_image_set_filter (src, (pixman_filter_t)sfilt, NULL, 0);
-	    if (!(t[0] == 65536 && t[1] == 0 && t[2] == 0 && t[3] == 65536 && t[4] == 0 && t[5] == 0))
+	    if (persp || !(t[0] == 65536 && t[1] == 0 && t[2] == 0 && t[3] == 65536 && t[4] == 0 && t[5] == 0))
 	    {
 		pixman_transform_t tr;
 		pixman_transform_init_identity (&tr);
 		tr.matrix[0][0] = t[0]; tr.matrix[0][1] = t[1]; tr.matrix[1][0] = t[2]; tr.matrix[1][1] = t[3];
 		tr.matrix[0][2] = t[4]; tr.matrix[1][2] = t[5];
+		if (persp)
+		{
+		    /* w = 1 + a x + b y (in 1/65536): the four corners of a rectangle map to a quadrilateral, so that two
+		     * opposite corners do not bound the others */
+		    static const int pa[16] = { 0, 2048, -2048, 0, 0, 1024, -1024, 4096, -4096, 3000, -3000, 0, 0, 1500, -1500, 700 };
+		    static const int pb[16] = { 0, 0, 0, 4096, -4096, 2048, 2048, 0, 0, -3000, 3000, 8192, -8192, 1500, -1500, -700 };
+		    tr.matrix[2][0] = pa[persp]; tr.matrix[2][1] = pb[persp];
+		}
 		pixman_image_set_transform (src, &tr);
 	    }
 	}
